@@ -163,7 +163,8 @@ type fsHooks struct {
 	nFault  int
 	nPoint  int
 	faults  map[int]bool
-	crashAt int // exit the process at this Point call (1-based); 0 = never
+	slow    map[int]bool // file system calls (by index) that take longer than the combined writer's sync timer
+	crashAt int          // exit the process at this Point call (1-based); 0 = never
 }
 
 var errFsInjected = &os.PathError{Op: "injected", Path: "-", Err: syscall.EIO}
@@ -174,10 +175,14 @@ func (h *fsHooks) install() {
 			return nil
 		}
 		h.mu.Lock()
-		defer h.mu.Unlock()
 		i := h.nFault
 		h.nFault++
-		if h.faults[i] {
+		slow, fail := h.slow[i], h.faults[i]
+		h.mu.Unlock()
+		if slow { // the background sync timer fires while this writer is inside its call
+			time.Sleep(fsSlowCall)
+		}
+		if fail {
 			return errFsInjected
 		}
 		return nil
@@ -203,6 +208,9 @@ func fsUninstall() {
 // fsHangLimit: a call that has not returned after this long is reported as hanging (the machine may be heavily loaded:
 // 4 s was observed to expire on a plain Delete under a load average of 60 on 16 cores).
 const fsHangLimit = 20 * time.Second
+
+// fsSlowCall: how long a "slow" file system call takes (the engine's trees sync combined batches every millisecond).
+const fsSlowCall = 15 * time.Millisecond
 
 // fsGuard runs f under recover and with a time limit: "panic" / "blocked" are observations, not crashes of the run.
 func fsGuard(f func() string) string {
@@ -485,10 +493,16 @@ func fstreeExec(c *runCtx, ops []string) {
 					}
 				}
 			} else {
-				h := &fsHooks{faults: map[int]bool{}}
+				h := &fsHooks{faults: map[int]bool{}, slow: map[int]bool{}}
 				for _, i := range o.ints("f") {
 					h.faults[i] = true
 					c.count("fault-op")
+				}
+				if _, ok := o.kv["slow"]; ok {
+					for _, i := range o.ints("slow") {
+						h.slow[i] = true
+						c.count("slow-call-op")
+					}
 				}
 				h.install()
 				res = fsRunWrite(t, o)
@@ -923,6 +937,9 @@ func fsGenFaults(c *runCtx, run func([]string)) {
 					f = append(f, f[0]+1+c.rng.IntN(4))
 				}
 				flt = " f=" + joinInts(f)
+			}
+			if c.rng.IntN(5) == 0 { // a call of this op outlasts the sync timer (with or without a failing call)
+				flt += fmt.Sprintf(" slow=%d", c.rng.IntN(7))
 			}
 			switch k := c.rng.IntN(100); {
 			case k < 45:
